@@ -137,6 +137,7 @@ fn spawn_worker(cfg: &RunCfg, base: &str, w: u64, resume: Option<(u64, u64)>, ag
     if let Some((u, i)) = resume {
         cmd.arg("--resume-unit").arg(u.to_string()).arg("--resume-idx").arg(i.to_string());
     }
+    cmd.env("RUST_BACKTRACE", "0");
     cmd.stdin(Stdio::null()).stdout(Stdio::piped()).stderr(Stdio::piped());
     let mut child = cmd.spawn().expect("spawn worker");
     let stdout = child.stdout.take().unwrap();
@@ -273,6 +274,9 @@ pub fn run_workers(cfg: &RunCfg) -> (Agg, HashSet<u64>, HashSet<u64>, HashSet<u6
                     std::process::exit(2);
                 }
                 let cases = unit_cases(&world, &cfg2.prop, cfg2.seed, u, cfg2.tier);
+                if std::env::var("SIM_VERBOSE").is_ok() {
+                    eprintln!("worker {} died: class={} site={} unit={} idx={} stage={} stderr_tail={:?}", w, class, site, u, i, stage, o.stderr.lines().rev().take(4).collect::<Vec<_>>());
+                }
                 if let Some(c) = cases.get(i as usize) {
                     match death_violation(&cfg2.prop, c, &class, &site, &o.stderr) {
                         Some(v) => a.violations.push(v),
